@@ -278,6 +278,23 @@ def handler : Handler := fun op j =>
     some (ok (jObj [("specs", jArr (fs.map (fun f => jArr [jS f.name, jS f.fmt, jS f.attrib]))),
                     ("source", jS (itstatFuncSource (fs.map (·.attrib)))),
                     ("vars", jArr ((workingVarNames c).map jS))]))
+  | "itstat_setup" => do
+    -- option values travel as integer tokens; user = null | list of [key, token]
+    let getPair (p : Json) : Option (String × Int) := do
+      match ← getList? p with
+      | [k, v] => some (← getStr? k, ← getInt? v)
+      | _ => none
+    let user : Option (List (String × Int)) ← match field? j "user" with
+      | none => some none
+      | some .null => some none
+      | some u => ((getList? u).bind (fun l => l.mapM getPair)).map some
+    let n ← fNat? j "n"
+    let r := itstatSetups (← fInt? j "fields") (← fInt? j "func") (← fInt? j "display") n user
+    let jKw (kw : List (String × Int)) : Json := jArr (kw.map (fun p => jArr [jS p.1, jI p.2]))
+    some (ok (jObj [
+      ("setups", jArr (r.1.map (fun s => jObj [("func", match s.func with | some f => jI f | none => Json.null),
+                                               ("kwargs", jKw s.kwargs)]))),
+      ("user_after", match r.2 with | some u => jKw u | none => Json.null)]))
   | "finite" => do
     let vs ← (← fList? j "vars").mapM getVar?
     some (ok (jObj [("fixed", jB (workingVarsFinite id vs)), ("pinned", jB (workingVarsFinitePinned id vs))]))
